@@ -49,11 +49,15 @@ const (
 
 	c03Variants = 8
 
-	// c03QuiescentAttempts is how often a quiescent exact retry (or new command)
-	// is repeated before its rejection is judged, so that a transient
-	// backpressure (background writes of an earlier cancelled call still
-	// draining) cannot fail it.
-	c03QuiescentAttempts = 4
+	// Bounds of the quiescent retry loop: a channel is given up (and judged)
+	// when its followers have caught up and c03SettledPasses more passes made no
+	// progress; otherwise the loop runs at least c03MaxPasses passes over at
+	// least c03MaxWait.
+	c03SettledPasses = 12
+	c03StablePasses  = 40
+	c03StableFor     = 1500 * time.Millisecond
+	c03MaxPasses     = 300
+	c03MaxWait       = 12 * time.Second
 )
 
 type c03In struct {
@@ -312,6 +316,8 @@ type c03Hist struct {
 	reMu     sync.Mutex
 	bumps    []atomic.Int64 // per channel: authority-changing installs attempted
 	ready    []atomic.Bool  // per channel: latest Install for the current generation succeeded
+	extraMu  sync.Mutex
+	extra    []verifkit.Op // acknowledged calls of the quiet quiescent retries
 	dead     atomic.Bool
 }
 
@@ -416,6 +422,27 @@ func (h *c03Hist) reinstall(client int, kind int) {
 }
 
 func (h *c03Hist) commit(client int, op c03PlanOp, phase string) c03Out {
+	return h.commitRec(client, op, phase, false)
+}
+
+// allOps is the recorded history plus the acknowledged calls of the quiet part
+// of the quiescent retry loop.
+func (h *c03Hist) allOps() []verifkit.Op {
+	ops := h.rec.Ops()
+	h.extraMu.Lock()
+	ops = append(ops, h.extra...)
+	h.extraMu.Unlock()
+	sort.Slice(ops, func(i, j int) bool { return ops[i].Call < ops[j].Call })
+	return ops
+}
+
+// commitRec issues one Commit. quiet is used by the long quiescent retry loop
+// after the first recorded attempts: the call is timestamped on the same
+// logical clock but only kept if it was acknowledged. Dropping the repeated
+// failures is the same reduction the oracle applies anyway (admission
+// rejections have no effect; of several ambiguous attempts of one (command,
+// content) only the earliest is kept).
+func (h *c03Hist) commitRec(client int, op c03PlanOp, phase string, quiet bool) c03Out {
 	l := h.cluster.leader.Load()
 	// A closed leader generation (its context is cancelled after Runtime.Close
 	// returned) is about to be replaced: wait for the new generation instead of
@@ -428,7 +455,7 @@ func (h *c03Hist) commit(client int, op c03PlanOp, phase string) c03Out {
 	recs := c03Records(h.caseSeed, op.Chan, op.Cmd, op.Variant, auth.ChannelEpoch)
 	cmd := c03CommandID(h.caseSeed, op.Chan, op.Cmd)
 	in := c03In{Kind: c03KindCommit, Chan: op.Chan, Cmd: op.Cmd, Variant: op.Variant, N: len(recs), Hash: c03ContentHash(recs), Gen: l.gen, Term: auth.LeaderTerm, Phase: phase}
-	return h.rec.Do(client, in, func() any {
+	call := func() any {
 		ctx := l.ctx
 		l.inflight.Add(1)
 		defer l.inflight.Add(-1)
@@ -443,12 +470,27 @@ func (h *c03Hist) commit(client int, op c03PlanOp, phase string) c03Out {
 			o.Err = err.Error()
 		}
 		return o
-	}).(c03Out)
+	}
+	if !quiet {
+		return h.rec.Do(client, in, call).(c03Out)
+	}
+	t0 := h.rec.Clock.Tick()
+	out := call().(c03Out)
+	t1 := h.rec.Clock.Tick()
+	if out.OK {
+		h.extraMu.Lock()
+		h.extra = append(h.extra, verifkit.Op{Client: client, Call: t0, Return: t1, Input: in, Output: out})
+		h.extraMu.Unlock()
+	}
+	return out
 }
 
-// c03WedgeClass names, from the recorded history of channel c (main phase),
-// what preceded a quiescent rejection. Only calls made after the latest
-// successful Install of the channel matter (Install resets the sequencer).
+// c03WedgeClass names, from the recorded history of channel c, what preceded a
+// persistent quiescent rejection. The triggering round is a client call or a
+// quiescent retry of a never-acknowledged command that did not return before
+// the latest successful Install of the channel was called (Install resets the
+// sequencer); "another attempt of the same command id" is looked for in the
+// channel's whole history, in any generation.
 func c03WedgeClass(ops []verifkit.Op, c int) string {
 	var lastInstall, lastInstallRet int64
 	var commits []verifkit.Op
@@ -467,8 +509,10 @@ func c03WedgeClass(ops []verifkit.Op, c int) string {
 	ambiguousOnKnown, conflictingReuse := false, false
 	for i, op := range commits {
 		in, out := op.Input.(c03In), op.Output.(c03Out)
-		// calls that returned before the latest successful Install was even
-		// called cannot have touched the current sequencer state
+		// the judged retries themselves ("final", "final-new") are not triggers
+		if in.Phase != "main" && in.Phase != "final-unacked" {
+			continue
+		}
 		if out.OK || op.Return < lastInstall || c03Definite(out.Class) {
 			continue
 		}
@@ -477,8 +521,9 @@ func c03WedgeClass(ops []verifkit.Op, c int) string {
 			if i == j || oin.Cmd != in.Cmd || other.Call >= op.Return || (!oout.OK && c03Definite(oout.Class)) {
 				continue
 			}
-			// "other" is another attempt of the same command id that may have
-			// reached the log before this one finished
+			// "other" is another attempt of the same command id, acknowledged or
+			// without a definite no-effect outcome, that may have reached the log
+			// before this one finished
 			if out.Class == "log_conflict" {
 				if oout.OK && oin.Hash != in.Hash {
 					conflictingReuse = true // different-content reuse, correctly refused
@@ -637,16 +682,27 @@ func c03RunCase(r *verifkit.Run, caseIdx int) {
 		return
 	}
 
-	// Quiescent phase 1 (all faults off). First retry every (command, content)
-	// that only ever produced ambiguous errors, so that a legitimately pending
-	// proposal (by design it blocks the channel until its exact retry) is
-	// resolved; then retry (exactly) every acknowledged command.
+	// Quiescent phase 1 (all faults off, all client calls returned). Judged
+	// clause: "retrying the same command with identical content returns the same
+	// range ... also after restart or cache eviction". One loop retries, pass
+	// after pass, (a) every (command, content) that so far only failed
+	// ambiguously - a legitimately pending proposal blocks its channel by design
+	// until its exact retry succeeds -, (b) every acknowledged command whose
+	// channel is installed and ready under the acknowledging authority, and (c)
+	// one brand-new command per ready channel, until everything is accepted.
+	// Only a persistent rejection is judged: the loop gives up on a channel when
+	// its followers have caught up with the leader's log and c03SettledPasses
+	// further passes changed nothing, or no replica log end moved during
+	// c03StablePasses passes spanning c03StableFor (state-based: no background
+	// repair or trailing write is making progress), or after c03MaxPasses passes
+	// spread over >= c03MaxWait.
 	ops := h.rec.Ops()
 	type ackKey struct{ c, cmd int }
 	type varKey struct{ c, cmd, v int }
 	acked := map[ackKey]c03In{}
 	ambiguousOnly := map[varKey]bool{}
 	var ambOrder []varKey
+	variantsTried := map[ackKey]map[int]bool{} // contents whose attempt may have left a sealed proposal pending
 	for _, op := range ops {
 		in, out := op.Input.(c03In), op.Output.(c03Out)
 		if in.Kind != c03KindCommit {
@@ -656,112 +712,213 @@ func c03RunCase(r *verifkit.Run, caseIdx int) {
 			if _, ok := acked[ackKey{in.Chan, in.Cmd}]; !ok {
 				acked[ackKey{in.Chan, in.Cmd}] = in
 			}
-		} else if !c03Definite(out.Class) {
-			k := varKey{in.Chan, in.Cmd, in.Variant}
-			if !ambiguousOnly[k] {
-				ambiguousOnly[k] = true
-				ambOrder = append(ambOrder, k)
-			}
+			continue
 		}
-	}
-	variantsTried := map[ackKey]map[int]bool{} // contents ever attempted without a definite rejection
-	for _, op := range ops {
-		in, out := op.Input.(c03In), op.Output.(c03Out)
-		// only outcomes that can leave a sealed proposal pending
-		if in.Kind != c03KindCommit || out.OK || c03Definite(out.Class) || out.Class == "log_conflict" {
+		if c03Definite(out.Class) {
 			continue
 		}
 		k := varKey{in.Chan, in.Cmd, in.Variant}
-		if variantsTried[ackKey{k.c, k.cmd}] == nil {
-			variantsTried[ackKey{k.c, k.cmd}] = map[int]bool{}
+		if !ambiguousOnly[k] {
+			ambiguousOnly[k] = true
+			ambOrder = append(ambOrder, k)
 		}
-		variantsTried[ackKey{k.c, k.cmd}][k.v] = true
+		if out.Class != "log_conflict" {
+			if variantsTried[ackKey{k.c, k.cmd}] == nil {
+				variantsTried[ackKey{k.c, k.cmd}] = map[int]bool{}
+			}
+			variantsTried[ackKey{k.c, k.cmd}][k.v] = true
+		}
 	}
-	// pendingNeverDurable[c]: a brand-new command (one content ever) still cannot
-	// be made durable with every fault off. Its proposal is legitimately pending
-	// and blocks the channel by design; why it cannot reach a quorum is a log
-	// divergence question (C01/C02), so the channel is not judged here.
-	pendingNeverDurable := map[int]string{}
-	for round := 0; round < 2; round++ {
+	mainAcked := make([]ackKey, 0, len(acked))
+	for k := range acked {
+		mainAcked = append(mainAcked, k)
+	}
+	sort.Slice(mainAcked, func(i, j int) bool {
+		if mainAcked[i].c != mainAcked[j].c {
+			return mainAcked[i].c < mainAcked[j].c
+		}
+		return mainAcked[i].cmd < mainAcked[j].cmd
+	})
+	curTerm := func(c int) uint64 { return cluster.leader.Load().auth[c].LeaderTerm }
+	// replicaLEOs returns the leader and follower log ends of channel c.
+	replicaLEOs := func(c int) (v [3]uint64, ok bool) {
+		for i, n := range c03Voters {
+			ld, err := cluster.raw[n].Load(context.Background(), replication.LoadBatch{Items: []replication.LoadRequest{{ChannelKey: h.chans[c].key, ChannelID: h.chans[c].id}}})
+			if err != nil || len(ld.Items) != 1 || ld.Items[0].Err != nil {
+				return v, false
+			}
+			v[i] = ld.Items[0].State.LEO
+		}
+		return v, true
+	}
+	caughtUp := func(c int) bool {
+		v, ok := replicaLEOs(c)
+		return ok && v[1] >= v[0] && v[2] >= v[0]
+	}
+	lastLEOs := make([][3]uint64, p.nChan)
+	stablePasses := make([]int, p.nChan)
+	stableSince := make([]time.Time, p.nChan)
+	type tally struct {
+		attempts int
+		last     string
+		done     bool
+	}
+	unackedT := map[varKey]*tally{}
+	exactT := map[ackKey]*tally{}
+	newT := map[int]*tally{}
+	otherAuth := map[ackKey]bool{}
+	settled := make([]int, p.nChan) // passes without progress since the followers were seen caught up
+	gaveUp := make([]bool, p.nChan)
+	started := time.Now()
+	passes := 0
+	for ; ; passes++ {
+		progress := make([]bool, p.nChan)
+		pendingWork := make([]bool, p.nChan)
+		quiet := passes >= 4
 		for _, k := range ambOrder {
-			if _, ok := acked[ackKey{k.c, k.cmd}]; ok {
+			if _, ok := acked[ackKey{k.c, k.cmd}]; ok || gaveUp[k.c] {
 				continue
 			}
-			out := h.commit(0, c03PlanOp{Kind: c03PlanCommit, Chan: k.c, Cmd: k.cmd, Variant: k.v}, "final-unacked")
-			r.Count("final_unacked_retry."+out.Class, 1)
-			if round == 1 && !out.OK && !c03Definite(out.Class) && out.Class != "log_conflict" && len(variantsTried[ackKey{k.c, k.cmd}]) == 1 {
-				pendingNeverDurable[k.c] = fmt.Sprintf("cmd=%d v=%d -> %s", k.cmd, k.v, out.Class)
+			t := unackedT[k]
+			if t == nil {
+				t = &tally{}
+				unackedT[k] = t
 			}
+			out := h.commitRec(0, c03PlanOp{Kind: c03PlanCommit, Chan: k.c, Cmd: k.cmd, Variant: k.v}, "final-unacked", quiet)
+			t.attempts, t.last = t.attempts+1, out.Class
 			if out.OK {
-				acked[ackKey{k.c, k.cmd}] = c03In{Chan: k.c, Cmd: k.cmd, Variant: k.v, Term: cluster.leader.Load().auth[k.c].LeaderTerm}
+				acked[ackKey{k.c, k.cmd}] = c03In{Chan: k.c, Cmd: k.cmd, Variant: k.v, Term: curTerm(k.c)}
+				progress[k.c] = true
+			} else if out.Class != "log_conflict" {
+				pendingWork[k.c] = true // a rejected other-content variant of the same id is not outstanding work
 			}
 		}
+		for _, k := range mainAcked {
+			t := exactT[k]
+			if t == nil {
+				t = &tally{}
+				exactT[k] = t
+			}
+			if t.done || gaveUp[k.c] {
+				continue
+			}
+			in := acked[k]
+			if in.Term != curTerm(k.c) || !h.ready[k.c].Load() {
+				// acknowledged under another authority, or channel not installed: not judged, one attempt
+				out := h.commitRec(0, c03PlanOp{Kind: c03PlanCommit, Chan: k.c, Cmd: k.cmd, Variant: in.Variant}, "final", false)
+				r.Count("final_retry_other_authority_or_not_installed."+out.Class, 1)
+				t.done, otherAuth[k] = true, true
+				continue
+			}
+			out := h.commitRec(0, c03PlanOp{Kind: c03PlanCommit, Chan: k.c, Cmd: k.cmd, Variant: in.Variant}, "final", quiet)
+			t.attempts, t.last = t.attempts+1, out.Class
+			if out.OK {
+				t.done, progress[k.c] = true, true
+			} else {
+				pendingWork[k.c] = true
+			}
+		}
+		for c := range h.chans {
+			if !h.ready[c].Load() || gaveUp[c] {
+				continue
+			}
+			t := newT[c]
+			if t == nil {
+				t = &tally{}
+				newT[c] = t
+			}
+			if t.done {
+				continue
+			}
+			out := h.commitRec(0, c03PlanOp{Kind: c03PlanCommit, Chan: c, Cmd: 60000 + c}, "final-new", quiet)
+			t.attempts, t.last = t.attempts+1, out.Class
+			if out.Class != "backpressured" { // only a permanent admission refusal is judged for new commands
+				t.done, progress[c] = true, true
+			} else {
+				pendingWork[c] = true
+			}
+		}
+		remaining := false
+		for c := range h.chans {
+			if gaveUp[c] || !pendingWork[c] {
+				continue
+			}
+			v, ok := replicaLEOs(c)
+			switch {
+			case progress[c] || !ok:
+				settled[c], stablePasses[c] = 0, 0
+			default:
+				if v[1] >= v[0] && v[2] >= v[0] {
+					settled[c]++
+				} else {
+					settled[c] = 0
+				}
+				if stablePasses[c] == 0 || v != lastLEOs[c] {
+					stablePasses[c], stableSince[c] = 1, time.Now()
+				} else {
+					stablePasses[c]++
+				}
+			}
+			lastLEOs[c] = v
+			// persistent: followers caught up and nothing changed for
+			// c03SettledPasses passes, or no replica log moved at all for
+			// c03StablePasses passes spanning c03StableFor (no background repair or
+			// trailing write is making progress that could unblock the retry)
+			if settled[c] >= c03SettledPasses || (stablePasses[c] >= c03StablePasses && time.Since(stableSince[c]) >= c03StableFor) {
+				gaveUp[c] = true
+				continue
+			}
+			remaining = true
+		}
+		if !remaining {
+			break
+		}
+		if passes+1 >= c03MaxPasses && time.Since(started) >= c03MaxWait {
+			r.Count("quiescent_loop_hit_time_bound", 1)
+			break
+		}
+		d := time.Duration(passes+1) * 200 * time.Microsecond
+		if d > 40*time.Millisecond {
+			d = 40 * time.Millisecond
+		}
+		time.Sleep(d)
 	}
-	keys := make([]ackKey, 0, len(acked))
-	for k := range acked {
-		keys = append(keys, k)
+	r.Max("quiescent_loop_max_passes", passes+1)
+	for _, t := range unackedT {
+		r.Count("final_unacked_retry."+t.last, 1)
 	}
-	sort.Slice(keys, func(i, j int) bool {
-		if keys[i].c != keys[j].c {
-			return keys[i].c < keys[j].c
-		}
-		return keys[i].cmd < keys[j].cmd
-	})
-	// Judged clause: "retrying the same command with identical content returns
-	// the same range ... also after restart or cache eviction". At this point
-	// every fault is off, every client call has returned, legitimately pending
-	// proposals were retried above; for a channel that is installed and ready
-	// under the authority of the acknowledgement, an exact retry that is still
-	// rejected after c03QuiescentAttempts attempts contradicts the clause.
-	wedged := map[int][]string{}
-	for _, k := range keys {
-		in := acked[k]
-		sameAuth := in.Term == cluster.leader.Load().auth[k.c].LeaderTerm && h.ready[k.c].Load()
-		var out c03Out
-		classes := ""
-		for attempt := 0; attempt < c03QuiescentAttempts; attempt++ {
-			if attempt > 0 {
-				time.Sleep(2 * time.Millisecond)
-			}
-			out = h.commit(0, c03PlanOp{Kind: c03PlanCommit, Chan: k.c, Cmd: k.cmd, Variant: in.Variant}, "final")
-			classes += out.Class + " "
-			if out.OK || !sameAuth {
-				break
-			}
-		}
-		if sameAuth {
-			r.Count("final_retry_same_authority."+out.Class, 1)
-			if !out.OK {
-				wedged[k.c] = append(wedged[k.c], fmt.Sprintf("cmd=%d -> %s", k.cmd, strings.TrimSpace(classes)))
-			}
-		} else {
-			r.Count("final_retry_other_authority_or_not_installed."+out.Class, 1)
-		}
-	}
-	// one new command per ready channel
-	newBlocked := map[int]string{}
-	for c := range h.chans {
-		if !h.ready[c].Load() {
+	// pendingNeverDurable[c]: a brand-new command (one content ever attempted)
+	// still cannot be made durable. Its proposal is legitimately pending and
+	// blocks the channel by design; why it cannot reach a quorum is a log
+	// divergence question (C01/C02), so the channel is not judged here.
+	pendingNeverDurable := map[int]string{}
+	for k, t := range unackedT {
+		if _, ok := acked[ackKey{k.c, k.cmd}]; ok {
 			continue
 		}
-		classes, allBackpressured := "", true
-		for attempt := 0; attempt < c03QuiescentAttempts; attempt++ {
-			if attempt > 0 {
-				time.Sleep(2 * time.Millisecond)
-			}
-			out := h.commit(0, c03PlanOp{Kind: c03PlanCommit, Chan: c, Cmd: 60000 + c}, "final-new")
-			classes += out.Class + " "
-			if out.Class != "backpressured" {
-				allBackpressured = false
-				r.Count("final_new_command."+out.Class, 1)
-				break
-			}
-		}
-		if allBackpressured {
-			r.Count("final_new_command.backpressured", 1)
-			newBlocked[c] = strings.TrimSpace(classes)
+		if !c03Definite(t.last) && t.last != "log_conflict" && len(variantsTried[ackKey{k.c, k.cmd}]) == 1 {
+			pendingNeverDurable[k.c] = fmt.Sprintf("cmd=%d v=%d -> %s x%d", k.cmd, k.v, t.last, t.attempts)
 		}
 	}
+	wedged := map[int][]string{}
+	for _, k := range mainAcked {
+		t := exactT[k]
+		if t == nil || otherAuth[k] {
+			continue
+		}
+		r.Count("final_retry_same_authority."+t.last, 1)
+		if !t.done {
+			wedged[k.c] = append(wedged[k.c], fmt.Sprintf("cmd=%d -> %s (x%d attempts)", k.cmd, t.last, t.attempts))
+		}
+	}
+	newBlocked := map[int]string{}
+	for c, t := range newT {
+		r.Count("final_new_command."+t.last, 1)
+		if !t.done {
+			newBlocked[c] = fmt.Sprintf("backpressured x%d attempts", t.attempts)
+		}
+	}
+	allOps := h.allOps()
 	for c := range h.chans {
 		list, blocked := wedged[c], newBlocked[c]
 		if len(list) == 0 && blocked == "" {
@@ -774,15 +931,16 @@ func c03RunCase(r *verifkit.Run, caseIdx int) {
 			}
 			continue
 		}
-		class := c03WedgeClass(ops, c)
-		hist := c03Compact(h.rec.Ops(), c)
+		class := c03WedgeClass(allOps, c)
+		hist := c03Compact(allOps, c)
+		wait := fmt.Sprintf("%d passes over %v, followers caught up: %v", passes+1, time.Since(started).Round(time.Millisecond), caughtUp(c))
 		if len(list) > 0 {
 			r.Count("channels_with_quiescent_exact_retry_rejected."+class, 1)
-			c03Keep(r, "quiescent-exact-retry-rejected:"+class, p.nClients, len(hist), map[string]any{"case": caseIdx, "desc": desc, "channel": c, "rejected_after_attempts": list, "new_command": blocked, "history": hist})
+			c03Keep(r, "quiescent-exact-retry-rejected:"+class, p.nClients, len(hist), map[string]any{"case": caseIdx, "desc": desc, "channel": c, "rejected": list, "new_command": blocked, "waited": wait, "history": hist})
 		}
 		if blocked != "" {
 			r.Count("channels_with_quiescent_new_command_backpressured."+class, 1)
-			c03Keep(r, "quiescent-new-command-backpressured:"+class, p.nClients, len(hist), map[string]any{"case": caseIdx, "desc": desc, "channel": c, "new_command_attempts": blocked, "exact_retries_rejected": list, "history": hist})
+			c03Keep(r, "quiescent-new-command-backpressured:"+class, p.nClients, len(hist), map[string]any{"case": caseIdx, "desc": desc, "channel": c, "new_command": blocked, "exact_retries_rejected": list, "waited": wait, "history": hist})
 		}
 	}
 
@@ -792,7 +950,7 @@ func c03RunCase(r *verifkit.Run, caseIdx int) {
 		r.Count("close_errors", len(closeErrs))
 	}
 	views := make([]c03StoreView, p.nChan)
-	ops = h.rec.Ops()
+	ops = h.allOps()
 	issued := make([]map[int]bool, p.nChan)
 	for c := range issued {
 		issued[c] = map[int]bool{}
@@ -1244,7 +1402,7 @@ func TestVerifC03(t *testing.T) {
 	r.Assume("Link faults are switched off while Install runs (unreachable voters during Install are C01's subject).")
 	r.Assume("Error classes backpressured/not_ready/stale_meta/write_fenced/invalid_config are admission rejections returned by quorumLog.Commit before a proposal is sealed; they are modelled as having no effect. All other errors may have the effect of one fresh append at any later time.")
 	r.Assume("Retries under a changed authority may be rejected; if acknowledged they must return the stored range.")
-	r.Assume("Quiescent judgement: all faults off, all client calls returned, every (command, content) that only ever failed ambiguously retried twice first (a legitimately pending proposal blocks its channel by design until its exact retry), channel installed and ready under the authority of the acknowledgement; an exact retry (or a brand-new command: backpressure only) still rejected after 4 attempts 2 ms apart is a violation, classified from the channel's history since its latest Install.")
+	r.Assume("Quiescent judgement: all faults off, all client calls returned, every (command, content) that only ever failed ambiguously retried twice first (a legitimately pending proposal blocks its channel by design until its exact retry), channel installed and ready under the authority of the acknowledgement; an exact retry (or a brand-new command: backpressure only) is retried until accepted; it is judged only if still rejected after the followers have caught up with the leader log and 12 further passes changed nothing, or no replica log end moved for 40 passes spanning 1.5 s, or after >=300 passes over >=12 s, classified from the channel's history since its latest Install.")
 	n := r.N(260, 2200)
 	for i := 0; i < n; i++ {
 		if r.Skip(i) {
